@@ -173,10 +173,10 @@ func stripQuant(s string) string {
 func solveOne(file string, timeoutS int, seed int, crossCheck bool) SolveResult {
 	z3n, cvc, z3o := solvers[0], solvers[1], solvers[2]
 	short := min(timeoutS, 3)
-	best, all := race(file, []attempt{{z3n, seed, short}, {z3o, seed, short}, {z3n, seed + 1, short}})
+	best, all := race(file, []attempt{{z3n, seed, short}, {z3o, seed, short}, {cvc, seed, short}, {z3n, seed + 1, short}})
 	if best.Status == "undecided" {
 		var more []SolveResult
-		best, more = race(file, []attempt{{z3o, seed + 1, short}, {z3n, seed + 2, short}, {z3n, seed + 3, short}, {z3o, seed + 2, short}, {z3n, seed + 4, short}, {z3o, seed + 3, short}, {cvc, seed, short}})
+		best, more = race(file, []attempt{{z3o, seed + 1, short}, {z3n, seed + 2, short}, {z3n, seed + 3, short}, {z3o, seed + 2, short}, {z3n, seed + 4, short}, {z3o, seed + 3, short}})
 		all = append(all, more...)
 	}
 	if best.Status == "undecided" {
